@@ -32,7 +32,13 @@ def oracle(sc, res, run, done_ok, begins):
     def failed_ancestor(i, seen=()):
         return any(jobs[u]["code"] != 0 or failed_ancestor(u) for u in jobs[i]["ups"])
 
-    if res["inconclusive"] or res["stuck"]:
+    if res["stuck"]:
+        crash = sc.get("crash")
+        when = f"scheduler-died-{crash.split(':')[1]}" if crash else "after-kill"
+        delayed = ":restarted-after-the-job-ended" if sc.get("restart_delay") else ""
+        viol.append(("C11", f"restarted-experiment-hangs:{when}{delayed}" + (":token" if sc["total"] else ""), f"the restarted experiment never completes: no job process alive, no log progress for {real.STUCK_AFTER:.0f} s, log {res['log']}, kills {res['kills']}; scheduler output: {res['stderr_tails'][-1][-300:]}"))
+        return viol
+    if res["inconclusive"]:
         return viol
     for i in sorted(mine):
         if jobs[i]["code"] == 0 and not failed_ancestor(i):
@@ -51,6 +57,31 @@ def oracle(sc, res, run, done_ok, begins):
         for pid in pids:
             if pid not in ends.get(i, []):
                 viol.append(("C11", "job-process-died-with-scheduler", f"job {i} began in process {pid} but that process never wrote its end record (kills {res['kills']})"))
+    # a job whose body ran once must still have the standard output of that run: launching the
+    # job script a second time (instead of adopting the running process) truncates it
+    outs = {}
+    for f in (run.ws / "jobs").glob("*/*/w.out"):
+        for ln in f.read_text().splitlines():
+            parts = ln.split()
+            if len(parts) == 3 and parts[0] == "OUT":
+                outs[int(parts[1])] = parts[2]
+    # jobs whose begin record precedes the (first) kill were running, with their .pid file
+    # written long before; a job merely *spawned* when the scheduler died is the business of
+    # the crash-at-launch part
+    first_kill = res["kills"][0]["at_records"] if res["kills"] else 0
+    running_at_kill = set()
+    for ln in res["log"][:first_kill]:
+        kind, i, pid, x = ln.split()
+        (running_at_kill.add if kind == "B" else running_at_kill.discard)(int(i))
+    crash = sc.get("crash")
+    for i in sorted(mine):
+        if len(begins.get(i, [])) == 1 and i in done_ok and outs.get(i) != begins[i][0]:
+            if crash:
+                viol.append(("C11", f"job-relaunched:output-lost:scheduler-died-{crash.split(':')[1]}", f"the scheduler died right {crash.split(':')[1].replace('-', ' ')} of job process number {crash.split(':')[0]}; after the restart job {i} ran once (pid {begins[i][0]}) but its job script was launched a second time (standard output of the run lost: {outs.get(i)})"))
+                continue
+            if i not in running_at_kill:
+                continue
+            viol.append(("C11", "job-relaunched:output-lost", f"job {i} ran once (pid {begins[i][0]}) but its standard output file no longer holds that run's output ({outs.get(i)}): the job script was launched again instead of the running process being adopted (kills {res['kills']})"))
     last = res["status"][0]
     any_fail = any(jobs[i]["code"] != 0 for i in mine)
     if last not in (0, 3):
@@ -87,8 +118,29 @@ def prop(ctx, sc):
 
 
 def cases(ctx):
-    return real.scenarios(max_procs=1, max_jobs=5, kill_pct=90, restart=True, single_name=True, overlap=False, durations=(0.1, 0.3, 0.6, 1.0))
+    return real.scenarios(max_procs=1, max_jobs=5, kill_pct=90, restart=True, single_name=True, overlap=False, durations=(0.1, 0.3, 0.8, 1.5, 2.5))
 
 
-PARTS = [Part("kill-restart", prop, strategy=cases, quick=32, thorough=320, shrink_budget=5)]
+# --- scheduler crash points at the launch of a job process (enumerated) -----------------------
+
+CHAIN = {"total": None, "jobs": [{"idx": 0, "ups": [], "dur": 0.6, "w": 0, "code": 0}, {"idx": 1, "ups": [0], "dur": 0.3, "w": 0, "code": 0}, {"idx": 2, "ups": [], "dur": 0.4, "w": 0, "code": 0}]}
+TOKEN = {"total": 1, "jobs": [{"idx": 0, "ups": [], "dur": 0.6, "w": 1, "code": 0}, {"idx": 1, "ups": [0], "dur": 0.3, "w": 1, "code": 0}, {"idx": 2, "ups": [], "dur": 0.4, "w": 1, "code": 0}]}
+
+
+def crash_enumerate(ctx):
+    for name, base in (("chain", CHAIN), ("token", TOKEN)):
+        for k in (1, 2, 3):
+            for where in ("before-spawn", "after-spawn"):
+                # restart at once (the job is still running) or after the job has ended (its token
+                # file is then stale when the new scheduler opens the token)
+                for delay in (0, 2.5):
+                    if ctx.quick() and delay and not (name == "token" and k == 1 and where == "after-spawn"):
+                        continue
+                    yield dict(base, procs=[{"name": "xp", "offset": 0.0, "jobs": [0, 1, 2]}], kill=None, crash=f"{k}:{where}", restart_delay=delay, shape=name)
+
+
+PARTS = [
+    Part("kill-restart", prop, strategy=cases, quick=32, thorough=320, shrink_budget=5),
+    Part("crash-at-launch", prop, enumerate=crash_enumerate),
+]
 TIMEOUT = {"quick": 900, "thorough": 5400}
